@@ -159,7 +159,7 @@ AddExt == "AddExt" \in Edits /\ tag = {} /\
   \E g \in UFiles : \E p \in {0} \cup MsgsOf(g) : \E n \in ExtNames : \E num \in ExtNums :
     \E l \in {Singular(ws[g].syntax), "repeated"} : \E x \in MsgSp :
       \E ty \in {TScalar(CHOOSE sc \in ScalarPool : TRUE)} \cup {TRef(sp) : sp \in {y \in TypeSp : y.abs}} :
-        Accept(AddDecls(g, << XExt(n, p, num, l, x, ty) >>), "edit")
+        Accept(AddDecls(g, << XExt(n, p, num, l, x, ty) >>), IF "AddExt" \in MutAdds /\ MutOK THEN "both" ELSE "edit")
 AddSvc == "AddSvc" \in Edits /\ tag = {} /\
   \E g \in UFiles : \E n \in {"zs", "a"} : \E i \in MsgSp : \E o \in MsgSp :
     Accept(AddDecls(g, << XSvc(n), XMtd("zr", Len(ws[g].decls) + 1, i, o) >>), "edit")
